@@ -269,7 +269,7 @@ def jobs(tier):
     hdr, body = fragment_loop(S["copyResult"], r'for\(Variables::const_iterator i=vs\.begin\(\);i!=vs\.end\(\);\+\+i\)',
                               "Solver::copyResult [loop body]")
     body_cxx = (base + EXTERN + fill(pre, SHIM_POSITION, SHIM_UPOSITION, SHIM_SLACK) + "namespace vpsc {\n"
-                "static void verif_copyResult_body(Variables::const_iterator i)\n" + body.text + "\n}\n"
+                "static void verif_copyResult_body(Variables::const_iterator i)\n" + body_continue_to_return(body) + "\n}\n"
                 'extern "C" void w_copyResult_body(void *slot) { vpsc::verif_copyResult_body((vpsc::Variable *const *)slot); }\n')
     js.append(Job("copyResult_body", "U", spec, "h_copyResult_body", cxx=body_cxx, enforce="w_copyResult_body",
                   replace=["w_position"], defines=["JOB_copyResult_body"], slices=[S["copyResult"], body],
@@ -293,7 +293,7 @@ def jobs(tier):
     S["ctor"] = slice_func(SV, r'^Solver::Solver\(Variables const &vs, Constraints const &cs\)', "Solver::Solver")
     h1, cb1 = fragment_loop(S["ctor"], r'for\(unsigned i=0;i<n;\+\+i\)', "Solver::Solver [first loop body]")
     ctor_filled = fill(pre, SHIM_POSITION, SHIM_UPOSITION, SHIM_SLACK, solver_extra="\tvoid verif_ctor_body1(unsigned i);\n")
-    b1_cxx = (base + EXTERN + ctor_filled + "namespace vpsc {\nvoid Solver::verif_ctor_body1(unsigned i)\n" + cb1.text + "\n}\n"
+    b1_cxx = (base + EXTERN + ctor_filled + "namespace vpsc {\nvoid Solver::verif_ctor_body1(unsigned i)\n" + body_continue_to_return(cb1) + "\n}\n"
               'extern "C" void w_ctor_body1(void *s, unsigned i) { ((vpsc::Solver *)s)->verif_ctor_body1(i); }\n')
     js.append(Job("Solver_ctor_body1", "U", spec, "h_ctor_body1", cxx=b1_cxx, enforce="w_ctor_body1", defines=["JOB_ctor_body1"], slices=[S["ctor"], cb1],
                   domain="one arbitrary variable of a vector of any length", expect=[r'postcondition', r'assigns']))
